@@ -661,9 +661,9 @@ func runC17(cfg *vh.Config) error {
 	res := vh.NewResult("C17", cfg.Seed)
 	res.Rule = "entity declarations: name casings (fixed list incl. trailing capitals/acronyms/digits/underscores + generated identifiers), 1-4 keys (key-typed id62/uuid/plain with primary/tenant/foreign, or ANY other field type) x shard flag x required; keys/data/event/request/response/summary/object fields over every field type of the schema language: 9 scalars, timestamp/date/decimal/any, bytes, keys, object/oneof/enum references, arrays and maps of all of these (3-4% optional arrays/maps: known finding); 1-4 statuses (+ UNSPECIFIED-first and prefixed-name edge cases), 0-3 events, 0-2 command services (default/named, base paths with leading/trailing/double slashes, options blocks, 0-2 methods with path parameters), boolean attributes also spelled out as false, 0-2 summaries, objects/oneofs/enums declared in the entity block, optional query settings; names the expansion itself adds are NOT avoided (keys page/query/metadata/data/status/event, summary field upsert, event Type: known findings); 20% of the files declare two entities; zero-keys (outside the quantifier, accepted); malformed stream: 21 fault classes round-robin (walker errors, conversion errors, parser validation, 15 duplicate-symbol classes, a quarter of them in the second entity of a file), acceptance compared both ways and the error class compared; plus the strcase stream; non-trivial = distinct declaration text"
 	cf := &vh.CasesFile{
-		Header: "From Coq Require Import String List NArith.\nFrom J5V.lib Require Import Outcome.\nFrom J5V.model Require Import Entity EntityCorr.",
+		Header: "From Coq Require Import String List NArith.\nFrom J5V.lib Require Import Outcome.\nFrom J5V.model Require Import Entity EntityCorr.\nFrom J5V.proofs Require Import EntitySpecCorr.",
 		Type:   "c17case",
-		Check:  "c17_check",
+		Check:  "c17_check_adm",
 	}
 	distinct := vh.Distinct{}
 	caseNo := 0
